@@ -35,6 +35,10 @@ func init() {
 		{"C15", "otpairs", props.C06duality},
 		{"C20", "otpairs", props.C06duality},
 		{"C01", "roles", props.C02},
+		{"C03", "constname", props.ConstName},
+		{"C12", "constname", props.ConstName},
+		{"C08", "constname", props.ConstName},
+		{"C12", "registered", props.C12registered},
 		{"C12", "width", props.C12width},
 		{"C12", "shiftcount", props.C12shift},
 		{"C16", "descriptor", props.C16descriptor},
